@@ -88,8 +88,9 @@ impl Hll8 {
         // Sum over the reciprocals (SUM of 2^-m)
         let mut sum: f64 = 0.0;
         for i in 0..=255 {
-            let power: usize = 1 << self.0[i];
-            sum += 1.0 / (power as f64);
+            // 2^-m computed in floating point: a register imported from hex can be
+            // as large as 255, which would overflow an integer shift
+            sum += 2.0_f64.powi(-i32::from(self.0[i]));
         }
 
         let estimate = estimate_hyperloglog(sum, zero_count);
